@@ -16,7 +16,7 @@ static CORPUS: OnceLock<Vec<(String, String)>> = OnceLock::new();
 pub fn corpus() -> &'static Vec<(String, String)> {
     CORPUS.get_or_init(|| {
         let mut v = vec![];
-        if let Ok(rd) = std::fs::read_dir("/verif/corpus") {
+        if let Ok(rd) = std::fs::read_dir(format!("{}/corpus", crate::runner::verif_dir())) {
             let mut names: Vec<PathBuf> = rd.filter_map(|e| e.ok()).map(|e| e.path()).filter(|p| p.extension().map(|x| x == "kbd").unwrap_or(false)).collect();
             names.sort();
             for p in names {
@@ -36,7 +36,8 @@ pub fn corpus() -> &'static Vec<(String, String)> {
 
 /// Extract the corpus from /repo (samples, docs, tests) into /verif/corpus.
 pub fn build_corpus() -> std::io::Result<usize> {
-    let dir = Path::new("/verif/corpus");
+    let dir_s = format!("{}/corpus", crate::runner::verif_dir());
+    let dir = Path::new(&dir_s);
     std::fs::create_dir_all(dir)?;
     let mut n = 0;
     let mut write = |name: String, text: &str| -> std::io::Result<()> {
@@ -613,7 +614,7 @@ fn check_via_str(case: &Case, o: &mut RunOut) -> (&'static str, String) {
 }
 
 fn check_via_file(case: &Case, o: &mut RunOut) -> (&'static str, String) {
-    let base = if Path::new("/dev/shm").is_dir() { "/dev/shm" } else { "/verif/work" };
+    let base = if Path::new("/dev/shm").is_dir() { "/dev/shm".to_string() } else { format!("{}/work", crate::runner::verif_dir()) };
     let dir = PathBuf::from(format!("{base}/ksim-c03-{}-{}", std::process::id(), case.param("nonce").unwrap_or("0")));
     let _ = std::fs::remove_dir_all(&dir);
     if std::fs::create_dir_all(&dir).is_err() {
